@@ -491,6 +491,11 @@ def _strat_apply_unitary_from_decompose(val: Any, args: ApplyUnitaryArgs) -> np.
     operations, qubits, _ = _try_decompose_into_operations_and_qubits(val)
     if operations is None:
         return NotImplemented
+    from cirq.protocols.has_unitary_protocol import has_unitary
+
+    if not all(has_unitary(op) for op in operations):
+        # apply_unitaries does not roll back: do not touch the target tensor at all.
+        return None
     all_qubits = frozenset([q for op in operations for q in op.qubits])
     ancilla = tuple(sorted(all_qubits.difference(qubits)))
     if not len(ancilla):
